@@ -522,3 +522,47 @@ example :
     named (handleIBTP env l (rq { bxh := "1356", chain := "c2", sid := "s1" })) = [[("c2", false)]] := by decide
 
 end Bxh.Props.C02
+
+namespace Bxh.Props.C02
+open Bxh Bxh.Exec
+
+/-! ### receipts: in index order, and only for transactions that were begun -/
+
+theorem isRequest_of_isResponse {ty : IType} (h : ty.isResponse = true) : ty.isRequest = false := by
+  cases ty <;> simp_all [IType.isRequest, IType.isResponse]
+
+/-- **an accepted receipt carries exactly the next receipt index of its pair** — always: there is no batch exemption on the
+receipt side -/
+theorem C02_receipt_needs_next_index (env : Env) (l : Led) (i : Ibtp) (ck : Checked)
+    (h : checkIBTP env l i = .ok ck) (hresp : i.typ.isResponse = true) :
+    i.index = KV.getD (getIC l ck.src).rc ck.dst 0 + 1 := by
+  have hreq := isRequest_of_isResponse hresp
+  unfold checkIBTP at h
+  repeat' (first
+    | (cases h <;> first | (exact (checkIndex_ok_iff _ _).mp ‹_›) | simp_all)
+    | split at h
+    | simp only at h)
+
+/-- **a receipt is accepted only for a transaction that was begun**: there is a one-to-one record or a group entry for its id -/
+theorem C02_receipt_needs_begun_transaction (env : Env) (l : Led) (i : Ibtp) (ck : Checked) (r : Led × String)
+    (hck : checkIBTP env l i = .ok ck) (h : handleIBTP env l i = .ok r) (hresp : i.typ.isResponse = true) :
+    (l.getS (.txRec { frm := ck.src, to := ck.dst, index := i.index })).isSome = true ∨
+    (l.getS (.child { frm := ck.src, to := ck.dst, index := i.index })).isSome = true := by
+  have hreq := isRequest_of_isResponse hresp
+  unfold handleIBTP at h
+  simp only [hck, hreq, hresp, Bool.false_eq_true, if_false, if_true] at h
+  split at h
+  · cases h
+  · rename_i l1 c hr
+    split at hr
+    · cases hr
+    · rename_i x hx
+      unfold tmReport at hx
+      split at hx
+      · rename_i rec hrec; left; rw [hrec]; rfl
+      · cases hx
+      · split at hx
+        · rename_i gid hc; right; rw [hc]; rfl
+        · cases hx
+
+end Bxh.Props.C02
